@@ -1060,6 +1060,7 @@ where
                         self.verif_loss(
                             ("loss.victim", "lossz.gone.victim", "lossz.dead.victim"),
                             vic_elem.hash(),
+                            vic_elem.entry_info(),
                             &deqs.probation,
                             &deqs.write_order,
                         );
@@ -1086,6 +1087,7 @@ where
                     self.verif_loss(
                         ("loss.rejected", "lossz.gone.rejected", "lossz.dead.rejected"),
                         kh.hash,
+                        std::ptr::null(),
                         &deqs.probation,
                         &deqs.write_order,
                     );
@@ -1586,6 +1588,7 @@ where
                 self.verif_loss(
                     ("loss.lru_evicted", "lossz.gone.lru_evicted", "lossz.dead.lru_evicted"),
                     self.build_hasher.hash_one(&*key),
+                    info,
                     deq,
                     write_order_deq,
                 );
@@ -1641,6 +1644,7 @@ where
         &self,
         path: (&'static str, &'static str, &'static str),
         hash: u64,
+        own: *const EntryInfo<K>,
         probation: &Deque<KeyHashDate<K>>,
         write_order: &Deque<KeyDate<K>>,
     ) {
@@ -1656,8 +1660,8 @@ where
         for n in probation.verif_walk("probation", &mut errs) {
             let node = unsafe { n.as_ref() };
             let elem = &node.element;
-            if elem.hash() == hash {
-                // the node of the key that is being lost itself (live until now)
+            if std::ptr::eq(elem.entry_info(), own) {
+                // the node of the entry that is being lost itself (live until now)
                 live_seen = true;
                 continue;
             }
